@@ -347,3 +347,9 @@ PROPS["C08"]["quick"].append({"variant": "default", "cases": 4000, "worker_prop"
 PROPS["C08"]["quick"].append({"variant": "checks", "cases": 1500, "worker_prop": "C14", "timeout": 900})
 PROPS["C08"]["thorough"].append({"variant": "default", "cases": 100000, "params": {"case_timeout": 120}, "worker_prop": "C14", "timeout": 3400})
 PROPS["C08"]["thorough"].append({"variant": "checks", "cases": 20000, "params": {"case_timeout": 120}, "worker_prop": "C14", "timeout": 3400})
+
+# four-slot leaves in the renaming / order lanes (classes with >= 4 slots that are symmetric in some of them only; union-only histories)
+PROPS["C11"]["quick"].append({"variant": "default", "cases": 6000, "params": {"with_q": 1, "case_timeout": 30}, "timeout": 600})
+PROPS["C11"]["thorough"].append({"variant": "default", "cases": 300000, "params": {"with_q": 1, "case_timeout": 60}, "timeout": 3000})
+PROPS["C12"]["quick"].append({"variant": "default", "cases": 4000, "params": {"with_q": 1, "case_timeout": 30}, "timeout": 600})
+PROPS["C12"]["thorough"].append({"variant": "default", "cases": 150000, "params": {"with_q": 1, "case_timeout": 60}, "timeout": 3000})
